@@ -3097,6 +3097,13 @@ def update_working_tree(
             path = change.old.path
             if not validate_path(path, validate_path_element):
                 continue
+            # Like git, treat a path behind a symlinked leading directory as
+            # absent: deleting through the symlink would remove a file
+            # outside the work tree.
+            try:
+                verify_leading_dirs(path, [], repo_path)
+            except InvalidPathError:
+                continue
 
             full_path = _tree_to_fs_path(repo_path, path, tree_encoding)
             try:
